@@ -390,6 +390,19 @@ void pair_spy(Ctx& c)
         spy_compare("pair(pair const&)", [&] { EP e2(e); }, [&] { SP s2(s); });
         spy_compare("pair(pair&&)", [&] { EP e2(std::move(e)); }, [&] { SP s2(std::move(s)); });
     }
+    { // converting construction from pairs with REFERENCE members: an rvalue pair<T&,T&> must copy from the referenced objects (std: forward<U>),
+      // an rvalue pair<T&&,T&&> must move
+        Spy r1(c.x[0]), r2(c.x[1]), q1(c.x[0]), q2(c.x[1]);
+        spy_compare("pair(pair<T&,T&>&&)", [&] { etl::pair<Spy&, Spy&> pr(r1, r2); EP e2(std::move(pr)); vf::eq_int("converted.first", e2.first.v, c.x[0]); },
+            [&] { std::pair<Spy&, Spy&> pr(q1, q2); SP s2(std::move(pr)); });
+        vf::eq_int("referenced-object-untouched", r1.v, q1.v);
+        spy_compare("pair(pair<T&,T&> const&)", [&] { etl::pair<Spy&, Spy&> const pr(r1, r2); EP e2(pr); }, [&] { std::pair<Spy&, Spy&> const pr(q1, q2); SP s2(pr); });
+        spy_compare("pair(pair<T const&,T&>&&)", [&] { etl::pair<Spy const&, Spy&> pr(r1, r2); EP e2(std::move(pr)); },
+            [&] { std::pair<Spy const&, Spy&> pr(q1, q2); SP s2(std::move(pr)); });
+        spy_compare("pair(pair<T&&,T&&>&&)", [&] { etl::pair<Spy&&, Spy&&> pr(std::move(r1), std::move(r2)); EP e2(std::move(pr)); },
+            [&] { std::pair<Spy&&, Spy&&> pr(std::move(q1), std::move(q2)); SP s2(std::move(pr)); });
+        vf::eq_int("moved-from-referenced-object", r1.v, q1.v);
+    }
     {
         etl::pair<SpySrc, SpySrc> eu{SpySrc{c.x[0]}, SpySrc{c.x[1]}};
         std::pair<SpySrc, SpySrc> su{SpySrc{c.x[0]}, SpySrc{c.x[1]}};
